@@ -159,7 +159,7 @@ fn build(ch: &mut Chooser, ms: &[Vec<Piece>]) -> FCase {
     expect.push(((anchor.0 + 10, anchor.1), "A1*2".into()));
     cells.push(plain);
     cells.push(xlsx::XCell::new(anchor.0 + 10, anchor.1 + 2, xlsx::XVal::Num("3".into())));
-    let enc = xlsx::XEnc { prefix: ch.flag("xlsx.prefix"), indent: ch.flag("xlsx.indented"), rows_never_r: ch.flag("xlsx.rows-never-carry-r"), cell_r: if ch.flag("xlsx.cell-r-implicit") { xlsx::RMode::Implicit } else { xlsx::RMode::Explicit }, ..Default::default() };
+    let enc = xlsx::XEnc { prefix: ch.flag("xlsx.prefix"), indent: ch.flag("xlsx.indented"), comments: ch.flag("xlsx.comments-between-elements"), extras: ch.flag("xlsx.optional-neighbours-of-sheetData"), rows_never_r: ch.flag("xlsx.rows-never-carry-r"), cell_r: if ch.flag("xlsx.cell-r-implicit") { xlsx::RMode::Implicit } else { xlsx::RMode::Explicit }, ..Default::default() };
     let bytes = xlsx::write(&xlsx::XBook { sheets: vec![xlsx::XSheet::new("S", cells)], ..Default::default() }, &enc);
     expect.sort();
     let desc = json!({"shape": [h, w], "master_cell": a1(anchor.0, anchor.1), "master": render(m, (0, 0)), "master_skips": skip, "second_group": two_groups, "si_swapped": si_swapped, "member_without_formula": omit_member});
